@@ -67,6 +67,15 @@ class Net:
         s.phase = "backlog"
         self.backlog.append(c)
 
+    def steal(self, c):
+        """another worker of the pool (the listening socket is shared) took the connection off the queue"""
+        s = self.conns[c]
+        assert s.phase == "backlog" and c in self.backlog
+        self.backlog.remove(c)
+        s.phase = "stolen"
+        s.left = True
+        s.closed = True
+
     def send(self, c, data):
         s = self.conns[c]
         assert s.phase != "fresh" and not s.left
